@@ -203,6 +203,8 @@ impl<'a> ser::Serializer for &'a mut Serializer {
             Some(NonNativeType::LazyValue) => {
                 use serde::Deserialize;
 
+                self.non_native_type = None;
+
                 // LazyValue is just the serialized bytes, so we need to deserialize it into a Value
                 let reader = SliceReader::new(v);
                 let mut de = crate::de::Deserializer::new(reader);
